@@ -8,6 +8,7 @@ mod ops;
 mod plan;
 mod rng;
 mod seams;
+mod threads;
 mod worker;
 
 use std::collections::{BTreeMap, HashMap, HashSet};
